@@ -46,7 +46,7 @@ def constraint_kind(rt):
 def run_shard(tier, seed, idx, n, res, tmp):
     from stone.backends.python_rsrc import stone_serializers as ss, stone_validators as bv
     b = budget(tier)
-    for ci in range(idx, b['specs'], n):
+    for ci in common.case_range(idx, b['specs'], n, res):
         try:
             case = rtwork.SpecCase(PROPERTY, seed, ci, tmp, profile())
             for ns in case.m.namespaces:
